@@ -278,23 +278,27 @@ class Printer(PrinterBase):
         body = self.tostring(expr.operands[-1])
         btype = expr.operands[-1].get_type()
         body_type = self.get_type(expr.operands[-1])
+        # the variable holding the return value must not clash with a reference name
+        result = "result"
+        while result in self.defined_refs:
+            result += "_"
         lines = []
         lines.append(f"{tab}def {name}({sargs}) -> {body_type}:")
         lines.append(f'{tab}  with warnings.catch_warnings(action="ignore"):')
         for a in self.assignments:
             lines.append(f"{tab}    {a}")
-        lines.append(f"{tab}    result = {body}")
+        lines.append(f"{tab}    {result} = {body}")
         if self.debug >= 2:
-            lines.append(f'{tab}    print("result=", result)')
+            lines.append(f'{tab}    print("result=", {result})')
         if self.debug >= 1:
             if btype.kind == "list":
-                lines.append(f"{tab}    assert isinstance(result, list), (type(result))")
-                lines.append(f"{tab}    assert len(result) == {len(btype.param)}, (len(result),)")
+                lines.append(f"{tab}    assert isinstance({result}, list), (type({result}))")
+                lines.append(f"{tab}    assert len({result}) == {len(btype.param)}, (len({result}),)")
                 lines.append(f"{tab}    print({[t.__name__ for t in btype.asdtype()]})")
                 for i, t in enumerate(btype.asdtype()):
-                    lines.append(f"{tab}    {self.check_dtype('result[' + str(i) + ']', 'numpy.' + t.__name__)}")
+                    lines.append(f"{tab}    {self.check_dtype(result + '[' + str(i) + ']', 'numpy.' + t.__name__)}")
                 # lines.append(f"{tab}    for item in result:")
             else:
-                lines.append(f"{tab}    assert result.dtype == {body_type}, (result.dtype,)")
-        lines.append(f"{tab}    return result")
+                lines.append(f"{tab}    assert {result}.dtype == {body_type}, ({result}.dtype,)")
+        lines.append(f"{tab}    return {result}")
         return utils.format_python("\n".join(lines))
